@@ -51,6 +51,10 @@ Fixpoint run_segs (m : pmgr) (img : image) (segs : list (list pop)) : pmgr * ima
 Definition run_h (segs : list (list pop)) : res (pmgr * hcache * image) :=
   hrun_segs conf (fst start_state) [] (snd start_state) segs.
 
+(* the same requests without any restart (the right-hand side of C03_restarts_interleaved) *)
+Definition run_flat (segs : list (list pop)) : pmgr * hcache * image :=
+  hrun_img conf (fst start_state) [] (snd start_state) (concat segs).
+
 Definition optN_eqb (a b : option N) : bool :=
   match a, b with Some x, Some y => x =? y | None, None => true | _, _ => false end.
 Definition quad_eqb (a b : N * N * N * N) : bool :=
@@ -76,6 +80,7 @@ Definition model_ok (c : c03case) : bool :=
     match run_h segs with
     | Ok (m, _, img) =>
       repos_eqb (canon m) before &&
+      (let '(mflat, _, _) := run_flat segs in repos_eqb (canon mflat) before) &&
       match recover conf img with Ok (mr, _) => repos_eqb (canon mr) after | _ => false end
     | _ => false
     end
@@ -89,6 +94,7 @@ Definition model_ok (c : c03case) : bool :=
     | Ok (mh, hc, imgh) =>
       forallb (fun h : N * option N * option N => let '(br, b, a) := h in
                optN_eqb (cached_head hc 1 br) b && optN_eqb (branch_head mh 1 br) b &&
+               (let '(_, hcflat, _) := run_flat segs in optN_eqb (cached_head hcflat 1 br) b) &&
                match hrestart conf imgh with
                | Ok (mr, hcr, _) => optN_eqb (cached_head hcr 1 br) a && optN_eqb (branch_head mr 1 br) a
                | _ => false
